@@ -2,9 +2,10 @@
    independent implementation of the standard security handler.  No part of the model of lopdf's handler
    is used here.
 
-   (enc <doc> <ver> (rnd xB ...) (ivs xB ...) [(opts [(eff xNAME)] [direct])])
+   (enc <doc> <ver> (rnd xB ...) (ivs xB ...) [(opts [(eff xNAME)] [direct] [len256])])
        encrypt <doc> as ISO 32000 says, with explicit randomness -> (encdoc <doc'>)
-       opts: an EFF entry (crypt filter of embedded file streams); the encryption dictionary as a direct object
+       opts: an EFF entry (crypt filter of embedded file streams); the encryption dictionary as a direct object;
+       the entry Length 256 added to the dictionary (what producers write for V 5)
    (case <doc> <ver> <isoenc> <implenc> (pws (right|wrong xPW) ...) (flags ...))
        <isoenc>: <doc> encrypted by this specification, <implenc>: <doc> encrypted by lopdf.
        answer (res (dec r ...) (reenc b)):
@@ -184,10 +185,33 @@ Definition with_eff (rq : irequest) (e : option bytes) : irequest :=
      rq_CF := rq_CF rq; rq_StmF := rq_StmF rq; rq_StrF := rq_StrF rq; rq_EFF := e; rq_owner := rq_owner rq;
      rq_user := rq_user rq; rq_P := rq_P rq; rq_fek := rq_fek rq |}.
 
+(* len256: the entry "Length 256" most producers (Acrobat, qpdf) add to a V 5 dictionary.  Table 20 defines Length for
+   V 2 and 3 only, so a reader ignores it there; the standard's writer (write_params) does not emit it *)
+Definition opt_len256 (opts : list sx) : bool := existsb (fun o => is_id o "len256") opts.
+Definition with_length256 (eid : option oid) (d : doc) : doc :=
+  match eid with
+  | Some id =>
+    match lookup (d_objects d) id with
+    | Some (ODict e) =>
+      {| d_version := d_version d; d_binary_mark := d_binary_mark d; d_trailer := d_trailer d;
+         d_objects := insert (d_objects d) id (ODict (dict_set e iK_Length (OInt 256))); d_max_id := d_max_id d |}
+    | _ => d
+    end
+  | None =>
+    match dict_get (d_trailer d) iK_Encrypt with
+    | Some (ODict e) =>
+      {| d_version := d_version d; d_binary_mark := d_binary_mark d;
+         d_trailer := dict_set (d_trailer d) iK_Encrypt (ODict (dict_set e iK_Length (OInt 256)));
+         d_objects := d_objects d; d_max_id := d_max_id d |}
+    | _ => d
+    end
+  end.
+
 Definition run_enc (d : doc) (rq : irequest) (rnd ivs : list bytes) (opts : list sx) : sx :=
   let rq := match opt_eff opts with Some e => with_eff rq (Some e) | None => rq end in
   let eid := if opt_direct opts then None else Some (d_max_id d + 1, 0) in
-  SL [sx_id "encdoc"; doc_to_sx (encrypt_document I rq eid rnd ivs d)].
+  let enc := encrypt_document I rq eid rnd ivs d in
+  SL [sx_id "encdoc"; doc_to_sx (if opt_len256 opts then with_length256 eid enc else enc)].
 
 Definition has_flag (x : sx) (f : String.string) : bool :=
   match x with SL l => existsb (fun y => is_id y f) l | _ => false end.
